@@ -1,0 +1,51 @@
+// Copyright (c) Jim Lambert
+// SPDX-License-Identifier: MIT
+
+//go:build verif
+
+package gldap
+
+import (
+	"bufio"
+	"bytes"
+	"net"
+
+	"github.com/hashicorp/go-hclog"
+)
+
+// VerifDecodeStream feeds stream through the same request reading and decoding
+// path the connection read loop uses ((*conn).readRequest) until the first
+// error, calling visit for every decoded request. It returns the number of
+// requests decoded and the error that ended the loop. It never recovers from
+// panics. Only compiled with the "verif" build tag.
+func VerifDecodeStream(stream []byte, visit func(*Request)) (int, error) {
+	c := &conn{
+		connID: 1,
+		logger: hclog.NewNullLogger(),
+		router: &Mux{},
+		reader: bufio.NewReader(bytes.NewReader(stream)),
+	}
+	n := 0
+	for {
+		r, err := c.readRequest(n + 1)
+		if err != nil {
+			return n, err
+		}
+		n++
+		if visit != nil {
+			visit(r)
+		}
+	}
+}
+
+// VerifListenAddr returns the address of the server's listener (nil when there
+// is none), so a harness can run servers on port 0. Only compiled with the
+// "verif" build tag.
+func (s *Server) VerifListenAddr() net.Addr {
+	s.mu.RLock()
+	defer s.mu.RUnlock()
+	if s.listener == nil {
+		return nil
+	}
+	return s.listener.Addr()
+}
